@@ -12,7 +12,6 @@ package main
 import (
 	"fmt"
 	"go/ast"
-	"go/token"
 	"sort"
 	"strconv"
 	"strings"
@@ -32,204 +31,11 @@ func main() {
 // ---------------------------------------------------------------------------------------------
 // facts: Go boolean expression of Less -> Lean term
 
-type tr struct {
-	recv, i, j string
-	ent        map[string]string // Go variable -> "a" | "b"
-	val        map[string]lv     // Go variable -> translated expression
-}
-
-type lv struct {
-	s      string
-	isBool bool
-}
-
-func (t *tr) expr(x ast.Expr) (lv, error) {
-	switch x := x.(type) {
-	case *ast.ParenExpr:
-		v, err := t.expr(x.X)
-		return lv{"(" + v.s + ")", v.isBool}, err
-	case *ast.BasicLit:
-		if x.Kind == token.INT {
-			return lv{"(" + x.Value + " : Int)", false}, nil
-		}
-	case *ast.Ident:
-		if v, ok := t.val[x.Name]; ok {
-			return v, nil
-		}
-		switch x.Name {
-		case "true":
-			return lv{"true", true}, nil
-		case "false":
-			return lv{"false", true}, nil
-		}
-	case *ast.UnaryExpr:
-		v, err := t.expr(x.X)
-		if err != nil {
-			return lv{}, err
-		}
-		switch {
-		case x.Op == token.NOT && v.isBool:
-			return lv{"(!" + v.s + ")", true}, nil
-		case x.Op == token.SUB && !v.isBool:
-			return lv{"(-" + v.s + ")", false}, nil
-		}
-	case *ast.CallExpr:
-		// a.GetOffset() / a.GetLength() on one of the two compared entities
-		sel, ok := x.Fun.(*ast.SelectorExpr)
-		if ok && len(x.Args) == 0 {
-			if id, ok := sel.X.(*ast.Ident); ok {
-				if who, ok := t.ent[id.Name]; ok {
-					switch sel.Sel.Name {
-					case "GetOffset":
-						return lv{who + "Off", false}, nil
-					case "GetLength":
-						return lv{who + "Len", false}, nil
-					}
-				}
-			}
-		}
-	case *ast.BinaryExpr:
-		a, err := t.expr(x.X)
-		if err != nil {
-			return lv{}, err
-		}
-		b, err := t.expr(x.Y)
-		if err != nil {
-			return lv{}, err
-		}
-		switch x.Op {
-		case token.LOR, token.LAND:
-			if a.isBool && b.isBool {
-				op := "||"
-				if x.Op == token.LAND {
-					op = "&&"
-				}
-				return lv{"(" + a.s + " " + op + " " + b.s + ")", true}, nil
-			}
-		case token.LSS, token.GTR, token.LEQ, token.GEQ, token.EQL, token.NEQ:
-			if !a.isBool && !b.isBool {
-				op := map[token.Token]string{token.LSS: "<", token.GTR: ">", token.LEQ: "≤", token.GEQ: "≥", token.EQL: "=", token.NEQ: "≠"}[x.Op]
-				return lv{"decide (" + a.s + " " + op + " " + b.s + ")", true}, nil
-			}
-			if a.isBool && b.isBool && (x.Op == token.EQL || x.Op == token.NEQ) {
-				op := "=="
-				if x.Op == token.NEQ {
-					op = "!="
-				}
-				return lv{"(" + a.s + " " + op + " " + b.s + ")", true}, nil
-			}
-		case token.ADD, token.SUB:
-			if !a.isBool && !b.isBool {
-				return lv{"(" + a.s + " " + x.Op.String() + " " + b.s + ")", false}, nil
-			}
-		}
-	}
-	return lv{}, fmt.Errorf("unsupported expression")
-}
-
-func (t *tr) stmts(list []ast.Stmt) (string, error) {
-	if len(list) == 0 {
-		return "", fmt.Errorf("control reaches the end without a return")
-	}
-	switch s := list[0].(type) {
-	case *ast.ReturnStmt:
-		if len(s.Results) != 1 {
-			return "", fmt.Errorf("return arity")
-		}
-		v, err := t.expr(s.Results[0])
-		if err != nil || !v.isBool {
-			return "", fmt.Errorf("unsupported return expression")
-		}
-		return v.s, nil
-	case *ast.AssignStmt:
-		if s.Tok != token.DEFINE || len(s.Lhs) != len(s.Rhs) {
-			return "", fmt.Errorf("unsupported assignment")
-		}
-		for k := range s.Lhs {
-			id, ok := s.Lhs[k].(*ast.Ident)
-			if !ok {
-				return "", fmt.Errorf("unsupported assignment target")
-			}
-			if ix, ok := s.Rhs[k].(*ast.IndexExpr); ok {
-				base, ok1 := ix.X.(*ast.Ident)
-				idx, ok2 := ix.Index.(*ast.Ident)
-				if ok1 && ok2 && base.Name == t.recv && (idx.Name == t.i || idx.Name == t.j) {
-					if idx.Name == t.i {
-						t.ent[id.Name] = "a"
-					} else {
-						t.ent[id.Name] = "b"
-					}
-					continue
-				}
-				return "", fmt.Errorf("unsupported index expression")
-			}
-			v, err := t.expr(s.Rhs[k])
-			if err != nil {
-				return "", err
-			}
-			t.val[id.Name] = lv{"(" + v.s + ")", v.isBool}
-		}
-		return t.stmts(list[1:])
-	case *ast.IfStmt:
-		if s.Init != nil {
-			return "", fmt.Errorf("if with init")
-		}
-		c, err := t.expr(s.Cond)
-		if err != nil || !c.isBool {
-			return "", fmt.Errorf("unsupported condition")
-		}
-		th, err := t.stmts(s.Body.List)
-		if err != nil {
-			return "", err
-		}
-		var el string
-		switch e := s.Else.(type) {
-		case nil:
-			el, err = t.stmts(list[1:])
-		case *ast.BlockStmt:
-			el, err = t.stmts(e.List)
-		case *ast.IfStmt:
-			el, err = t.stmts([]ast.Stmt{e})
-		default:
-			err = fmt.Errorf("unsupported else")
-		}
-		if err != nil {
-			return "", err
-		}
-		return "(if " + c.s + " = true then " + th + " else " + el + ")", nil
-	}
-	return "", fmt.Errorf("unsupported statement")
-}
-
 func oneLine(s string) string { return strings.Join(strings.Fields(s), " ") }
 
 func facts(f *hc.Facts) {
-	// --- the comparator
-	fd := f.FuncDecl(pkgDir, "entitySorter.Less")
-	ok := false
-	if fd != nil && fd.Body != nil && fd.Recv != nil && len(fd.Recv.List) == 1 && len(fd.Recv.List[0].Names) == 1 {
-		var params []string
-		for _, p := range fd.Type.Params.List {
-			for _, n := range p.Names {
-				params = append(params, n.Name)
-			}
-		}
-		if len(params) == 2 {
-			t := &tr{recv: fd.Recv.List[0].Names[0].Name, i: params[0], j: params[1], ent: map[string]string{}, val: map[string]lv{}}
-			term, err := t.stmts(fd.Body.List)
-			if err == nil {
-				f.Raw("-- `entitySorter.Less(i, j)` with a = e[i], b = e[j]; translated from: " + oneLine(f.Src(fd.Body)))
-				f.Raw("def less (aOff aLen bOff bLen : Int) : Bool := " + term)
-				ok = true
-			} else {
-				f.Raw("-- entitySorter.Less could not be translated: " + err.Error())
-			}
-		}
-	}
-	if !ok {
-		f.Raw("def less (aOff aLen bOff bLen : Int) : Bool := missing_fact_less -- entitySorter.Less not found or not translatable")
-	}
-	f.Str("lessSrc", oneLine(f.FuncSrc(pkgDir, "entitySorter.Less")), "source of the comparator")
+	// --- the comparator (translator: harness/hc/c36_less.go)
+	hc.C36LessFacts(f, pkgDir)
 
 	// --- the rest of sort.Interface and the two call sites (what makes `sort.Sort`'s contract apply)
 	f.Bool("lenIsLen", oneLine(f.FuncSrc(pkgDir, "entitySorter.Len")) == "{ return len(e) }", "entitySorter.Len")
